@@ -7,6 +7,21 @@ HERE = os.path.dirname(os.path.dirname(os.path.abspath(__file__)))
 
 # id -> (category, technique, text, note, design_ref)
 CHECKS = {
+    "C03": (
+        "exploration",
+        "bounded exhaustive enumeration of reads with position-unique qualities through every modifier class and through cli.main option subsets; slice identification + differential against --action=trim",
+        "Reads carry position-unique quality characters (disjoint alphabets for the two mates), so the written quality string identifies "
+        "the slice (i,j) of the input that a stage kept; the written sequence must be exactly that slice of the input sequence (of the "
+        "reverse complement when --revcomp chose it, of the mate when paired --revcomp swapped the pair), lengths equal. mask / "
+        "lowercase / none are judged differentially: bases may differ from the input exactly outside what the trim action keeps for the "
+        "same configuration (N resp. lower case outside, upper case inside, unchanged for none); retain / crop must keep the documented "
+        "interval around the reported match; zero-capping is the only quality change. Seams: AdapterCutter (12-adapter menu, singles and "
+        "pairs, --times 1-3, six actions), PairedAdapterCutter, ReverseComplementer, PairedReverseComplementer, the seven simple "
+        "modifiers on ALL reads up to length 6 (7); cli.main on subsets of 14 read-modifying options x actions x {FASTQ, FASTA, paired}.",
+        "Which slice is the right one is the business of C09/C10/C13/C14; this check judges alignment of sequence and qualities and the "
+        "documented base changes.",
+        "DESIGN.md section 3, C03",
+    ),
     "C09": (
         "exploration",
         "bounded exhaustive enumeration of (adapter list, times, action, read) at the AdapterCutter seam against the stated combination rules",
